@@ -422,7 +422,8 @@ inline MValue extract(ArduinoJson::JsonVariantConst v, int depth = 0) {
 }
 
 // build(dst, model) through the public API.  Object keys must be unique.  Returns false if a call reported failure.
-inline bool build(ArduinoJson::JsonVariant dst, const MValue& m) {
+// `linked`: strings and keys without a NUL are handed over as const char* (kept by address: `m` must outlive the document)
+inline bool build(ArduinoJson::JsonVariant dst, const MValue& m, bool linked = false) {
   using namespace ArduinoJson;
   switch (m.kind) {
     case MValue::Null: return dst.set(nullptr);
@@ -432,14 +433,16 @@ inline bool build(ArduinoJson::JsonVariant dst, const MValue& m) {
       return dst.set((unsigned long long)m.i);
     case MValue::F32: return dst.set(m.f);
     case MValue::F64: return dst.set(m.d);
-    case MValue::Str: return dst.set(m.s);
+    case MValue::Str:
+      if (linked && m.s.find('\0') == std::string::npos) return dst.set(static_cast<const char*>(m.s.c_str()));
+      return dst.set(m.s);
     case MValue::Raw: return dst.set(serialized(m.s));
     case MValue::Arr: {
       JsonArray a = dst.to<JsonArray>();
       bool ok = !a.isNull();
       for (auto& e : m.a) {
         JsonVariant c = a.add<JsonVariant>();
-        ok = ok && !c.isUnbound() && build(c, e);
+        ok = ok && !c.isUnbound() && build(c, e, linked);
       }
       return ok;
     }
@@ -447,8 +450,9 @@ inline bool build(ArduinoJson::JsonVariant dst, const MValue& m) {
       JsonObject o = dst.to<JsonObject>();
       bool ok = !o.isNull();
       for (auto& kv : m.o) {
-        JsonVariant c = o[kv.first].to<JsonVariant>();
-        ok = ok && !c.isUnbound() && build(c, kv.second);
+        JsonVariant c = (linked && kv.first.find('\0') == std::string::npos) ? o[static_cast<const char*>(kv.first.c_str())].to<JsonVariant>()
+                                                                                : o[kv.first].to<JsonVariant>();
+        ok = ok && !c.isUnbound() && build(c, kv.second, linked);
       }
       return ok;
     }
